@@ -405,7 +405,8 @@ def lean_sig(sg):
     m = re.fullmatch(r"arr\((.*)\)", sg)
     if m:
         return f"(.arr {lean_sig(m.group(1))})"
-    return {"i64": ".i64", "tstr": ".tstr", "bstr": ".bstr", "bool": ".bool", "struct": ".struct"}.get(sg, f'(.other "{sg}")')
+    # "uint": an unsigned item whose width the probe could not force (an index into a table): width 0 = unknown
+    return {"i64": ".i64", "tstr": ".tstr", "bstr": ".bstr", "bool": ".bool", "struct": ".struct", "uint": "(.u 0)"}.get(sg, f'(.other "{sg}")')
 
 
 def emit_schemas(text):
